@@ -108,10 +108,10 @@ func topicInit(t *Topic, join *ClientComMessage, h *Hub) {
 		return
 	}
 
-	if t.isDeleted() {
-		// Someone deleted the topic while we were trying to create it.
-		return
-	}
+	// Someone may have deleted the topic while we were trying to create it (e.g. the owner's account
+	// is being deleted). The deleting party has sent or is about to send an exit request and may be
+	// waiting for it to be handled: start the run loop anyway. The topic is inactive, so the loop
+	// rejects every request, handles the exit request and terminates.
 
 	statsInc("LiveTopics", 1)
 	statsInc("TotalTopics", 1)
